@@ -10,11 +10,32 @@ import vlib, cdnsgen as G, expcheck as E
 SCRIPT = ("BP:tps=1000,max=1000 X:{t}:{c} {q1} {q2} C W C {q3} {q4} C W C R:{t}:0 C R:{t}:0 C W C D")
 
 
-def mk_script(tgt, comp, big):
+def mk_script(tgt, comp, big, asnlen=None):
     pad = "x" + "41" * (3000 if big else 10)
     def q(i):
         return "Q:cport=%d,qn=%s" % (i, pad)
-    return SCRIPT.format(t=tgt, c=comp, q1=q(1), q2=q(2), q3=q(3), q4=q(4))
+    q4 = q(4) if asnlen is None else "Q:cport=4,asn=x" + "42" * asnlen
+    return SCRIPT.format(t=tgt, c=comp, q1=q(1), q2=q(2), q3=q(3), q4=q4)
+
+
+def aligned_scenarios(quick):
+    """scenarios in which the second block ends exactly at the end of the encoder's staging buffer, so that the closing break of
+    the next rotate_output has to flush first (found by sweeping the length of the record's last string member and looking at
+    the sizes of the write calls of the fault-free run)"""
+    out = []
+    for tgt in ("fd", "nm"):
+        for big in ((False,) if quick else (False, True)):
+            lens = list(range(0, 2060))
+            ans = run_os(["os full " + mk_script(tgt, "n", big, L) for L in lens])
+            hits = []
+            for L, a in zip(lens, ans):
+                if a and " | T " in a:
+                    sizes = [e.split(":")[-1] for e in a.split(" | T ")[1].split(" | ")[0].split(",") if e.startswith("w:") and ("_o0" in e or "out0_" in e)]
+                    if len(sizes) >= 2 and sizes[-1] == "1":
+                        hits.append(L)
+            for L in hits[:2]:
+                out.append((tgt, "n", big, L))
+    return out
 
 
 def run_os(lines):
@@ -43,6 +64,9 @@ def check(run):
                     "std::ofstream sticky fail state", "Spec/Cdns.lean validates the recovery output"]
     seen = set()
     scenarios = [(t, c, big) for t in ("nm", "fd") for c in ("n", "g", "x") for big in ((False, True) if not quick else (True,))]
+    al = aligned_scenarios(quick)
+    run.count("aligned scenarios (closing break must flush a full staging buffer)", len(al))
+    scenarios += al
     base = run_os(["os full " + mk_script(*sc) for sc in scenarios])
     lines, metas = [], []
     for sc, b in zip(scenarios, base):
@@ -73,7 +97,7 @@ def check(run):
     lean_of = dict(zip(lean_idx, lean))
     fired_total = 0
     for idx, ((sc, k, kind, persist, api0, outs0), p, line) in enumerate(zip(metas, parsed, lines)):
-        tag = "%s/%s" % (sc[0], {"n": "plain", "g": "gzip", "x": "xz"}[sc[1]])
+        tag = "%s/%s%s" % (sc[0], {"n": "plain", "g": "gzip", "x": "xz"}[sc[1]], "/aligned" if len(sc) > 3 else "")
         if p is None:
             sig = "fault:crash:" + tag
             if sig not in seen:
